@@ -118,6 +118,7 @@ func main() {
 	run.Watch(20*time.Second, 3<<30, func(cur string) string { return cur })
 
 	doDec := func(bs []byte) {
+		run.Current("dec " + hx.Hex(bs)) // progress for the watchdog (the untyped phases take > 20 s in the thorough tier)
 		o := decIface(bs)
 		run.Case("dec "+hx.Hex(bs), o)
 		if strings.HasPrefix(o, "ok") {
